@@ -822,113 +822,7 @@ func checkGlobs(c *Ctx, r *Report) {
 		o.NonTrivial = true
 	}
 
-	// (3) only matched files are walked: filter at registration (every registerParsedFile
-	// is dominated by a membership test in a non-nil filter) or filter at the walk
-	// (GetAllSourceFiles appends only members of a field that holds the matched set).
-	{
-		viol := ""
-		var sites []string
-		okWalk := false
-		const gasf = "(*core/arbitrators.PackagesFacade).GetAllSourceFiles"
-		var filterField string
-		allInstrs(fi.SSA, false, func(_ *ssa.Function, _ *ssa.BasicBlock, _ int, ins ssa.Instruction) {
-			if st, ok := ins.(*ssa.Store); ok && st.Val == matched {
-				if fa, ok := st.Addr.(*ssa.FieldAddr); ok {
-					if f := structFieldVar(fa.X.Type(), fa.Field); f != nil {
-						filterField = f.Name()
-						sites = append(sites, w.pos(st.Pos()))
-					}
-				}
-			}
-		})
-		if gf := w.fn(gasf); gf != nil && filterField != "" {
-			// every append of a file name in GetAllSourceFiles's first loop is guarded by membership in filterField
-			nApp := 0
-			guarded := 0
-			allInstrs(gf.SSA, false, func(_ *ssa.Function, _ *ssa.BasicBlock, _ int, ins ssa.Instruction) {
-				cl, ok := ins.(*ssa.Call)
-				if !ok || calleeName(cl) != "builtin.append" {
-					return
-				}
-				// appends of strings (file names) only
-				if sl, ok := cl.Type().Underlying().(*types.Slice); !ok || !types.Identical(sl.Elem(), types.Typ[types.String]) {
-					return
-				}
-				nApp++
-				sites = append(sites, w.pos(cl.Pos()))
-				for _, f := range guardsOf(cl) {
-					cnd, p := unwrapNot(f.Cond, f.Pol)
-					a := sliceOf(cnd)
-					if p && a.hasFieldNamed(filterField) && isCommaOk(cnd) {
-						guarded++
-						return
-					}
-				}
-			})
-			if nApp > 0 && nApp == guarded {
-				okWalk = true
-			}
-			// the field must have no other writer that could widen it
-			for _, st := range w.fieldStoresByName("core/arbitrators", "PackagesFacade", filterField) {
-				fnk := fnShort(st.Parent())
-				if fnk != iwg && fnk != "core/arbitrators.NewPackagesFacade" {
-					okWalk = false
-					viol = fmt.Sprintf("%s: %s also writes PackagesFacade.%s", w.pos(st.Pos()), fnk, filterField)
-				}
-			}
-			// and no map insert into it outside initWithGlobs
-			for _, fn := range w.SSAFuncs {
-				if fn.Pkg == nil || short(fn.Pkg.Pkg.Path()) != "core/arbitrators" || fnShort(fn) == iwg {
-					continue
-				}
-				allInstrs(fn, true, func(_ *ssa.Function, _ *ssa.BasicBlock, _ int, ins ssa.Instruction) {
-					if mu, ok := ins.(*ssa.MapUpdate); ok && sliceOf(mu.Map).hasFieldNamed(filterField) {
-						okWalk = false
-						viol = fmt.Sprintf("%s: %s inserts into PackagesFacade.%s", w.pos(mu.Pos()), fnShort(fn), filterField)
-					}
-				})
-			}
-		}
-		okReg := false
-		if !okWalk && viol == "" {
-			// filter at registration: cachePackage's registerParsedFile dominated by membership, and the filter never nil
-			const cp = "(*core/arbitrators.PackagesFacade).cachePackage"
-			if cf := w.fn(cp); cf != nil && len(cf.SSA.Params) == 3 {
-				filt := cf.SSA.Params[2]
-				all := true
-				n := 0
-				for _, cl := range callsIn(cf.SSA, false, nameIs("(*core/arbitrators.PackagesFacade).registerParsedFile")) {
-					n++
-					sites = append(sites, w.pos(cl.Pos()))
-					g := false
-					for _, f := range guardsOf(cl) {
-						cnd, p := unwrapNot(f.Cond, f.Pol)
-						if p && isCommaOk(cnd) && sliceReaches(cnd, filt) {
-							g = true
-						}
-					}
-					if !g {
-						all = false
-					}
-				}
-				okReg = all && n > 0
-				if okReg {
-					// the nil bypass must be gone: no caller passes a nil filter
-					for _, cl := range w.callersOf(nameIs("(*core/arbitrators.PackagesFacade).loadAndCacheExpressions")) {
-						if k, ok := cl.Common().Args[len(cl.Common().Args)-1].(*ssa.Const); ok && k.IsNil() {
-							okReg = false
-							sites = append(sites, w.pos(cl.Pos()))
-						}
-					}
-				}
-			}
-		}
-		if !okWalk && !okReg && viol == "" {
-			viol = "files outside controllerGlobs can become sources: registerParsedFile is reached without a membership test when the filter is nil (GetPackages -> loadAndCacheExpressions(.., nil), e.g. for a dot-imported package), and GetAllSourceFiles does not restrict itself to the glob-matched set; on the next analysis of the session such files are walked and their controllers contribute"
-		}
-		o := r.add("C20.d", "guardedby", "packages-facade:only-glob-matched-files-are-sources", "GetAllSourceFiles yields only files matched by the configured globs (filter at the walk, or at every registration)", []string{gasf, iwg}, sites, viol)
-		o.NonTrivial = true
-	}
+	checkGlobSources(c, r, "C20.d", fi, matched)
 	// (4) the pipeline and the controller visitor walk GetAllSourceFiles (and nothing else)
 	ruleWhoCalls(c, r, "C20.d", func(n string) bool { return n == "go/ast.Walk" }, "ast.Walk",
 		[]string{"(*core/pipeline.GleecePipeline).GenerateGraph"}, 1, "source files are only walked by GenerateGraph, over GetAllSourceFiles()")
@@ -1099,4 +993,118 @@ func checkConfigLiveness(c *Ctx, r *Report, fields []cfgField) {
 	}
 	o := r.add("C20.f", "readset", "config-fields⊆read-by-generator", fmt.Sprintf("each of the %d configuration fields is read by non-definitions code or by a template", n), []string{"definitions.GleeceConfig"}, sites, viol)
 	o.NonTrivial = true
+}
+
+// checkGlobSources: GetAllSourceFiles yields only glob-matched files - on the first and on
+// every later analysis (shared by C20.d and C19.b).
+func checkGlobSources(c *Ctx, r *Report, clause string, fi *FuncInfo, matched ssa.Value) {
+	w := c.W
+	const iwg = "(*core/arbitrators.PackagesFacade).initWithGlobs"
+	// (3) only matched files are walked: filter at registration (every registerParsedFile
+	// is dominated by a membership test in a non-nil filter) or filter at the walk
+	// (GetAllSourceFiles appends only members of a field that holds the matched set).
+	{
+		viol := ""
+		var sites []string
+		okWalk := false
+		const gasf = "(*core/arbitrators.PackagesFacade).GetAllSourceFiles"
+		var filterField string
+		allInstrs(fi.SSA, false, func(_ *ssa.Function, _ *ssa.BasicBlock, _ int, ins ssa.Instruction) {
+			if st, ok := ins.(*ssa.Store); ok && st.Val == matched {
+				if fa, ok := st.Addr.(*ssa.FieldAddr); ok {
+					if f := structFieldVar(fa.X.Type(), fa.Field); f != nil {
+						filterField = f.Name()
+						sites = append(sites, w.pos(st.Pos()))
+					}
+				}
+			}
+		})
+		if gf := w.fn(gasf); gf != nil && filterField != "" {
+			// every append of a file name in GetAllSourceFiles's first loop is guarded by membership in filterField
+			nApp := 0
+			guarded := 0
+			allInstrs(gf.SSA, false, func(_ *ssa.Function, _ *ssa.BasicBlock, _ int, ins ssa.Instruction) {
+				cl, ok := ins.(*ssa.Call)
+				if !ok || calleeName(cl) != "builtin.append" {
+					return
+				}
+				// appends of strings (file names) only
+				if sl, ok := cl.Type().Underlying().(*types.Slice); !ok || !types.Identical(sl.Elem(), types.Typ[types.String]) {
+					return
+				}
+				nApp++
+				sites = append(sites, w.pos(cl.Pos()))
+				for _, f := range guardsOf(cl) {
+					cnd, p := unwrapNot(f.Cond, f.Pol)
+					a := sliceOf(cnd)
+					if p && a.hasFieldNamed(filterField) && isCommaOk(cnd) {
+						guarded++
+						return
+					}
+				}
+			})
+			if nApp > 0 && nApp == guarded {
+				okWalk = true
+			}
+			// the field must have no other writer that could widen it
+			for _, st := range w.fieldStoresByName("core/arbitrators", "PackagesFacade", filterField) {
+				fnk := fnShort(st.Parent())
+				if fnk != iwg && fnk != "core/arbitrators.NewPackagesFacade" {
+					okWalk = false
+					viol = fmt.Sprintf("%s: %s also writes PackagesFacade.%s", w.pos(st.Pos()), fnk, filterField)
+				}
+			}
+			// and no map insert into it outside initWithGlobs
+			for _, fn := range w.SSAFuncs {
+				if fn.Pkg == nil || short(fn.Pkg.Pkg.Path()) != "core/arbitrators" || fnShort(fn) == iwg {
+					continue
+				}
+				allInstrs(fn, true, func(_ *ssa.Function, _ *ssa.BasicBlock, _ int, ins ssa.Instruction) {
+					if mu, ok := ins.(*ssa.MapUpdate); ok && sliceOf(mu.Map).hasFieldNamed(filterField) {
+						okWalk = false
+						viol = fmt.Sprintf("%s: %s inserts into PackagesFacade.%s", w.pos(mu.Pos()), fnShort(fn), filterField)
+					}
+				})
+			}
+		}
+		okReg := false
+		if !okWalk && viol == "" {
+			// filter at registration: cachePackage's registerParsedFile dominated by membership, and the filter never nil
+			const cp = "(*core/arbitrators.PackagesFacade).cachePackage"
+			if cf := w.fn(cp); cf != nil && len(cf.SSA.Params) == 3 {
+				filt := cf.SSA.Params[2]
+				all := true
+				n := 0
+				for _, cl := range callsIn(cf.SSA, false, nameIs("(*core/arbitrators.PackagesFacade).registerParsedFile")) {
+					n++
+					sites = append(sites, w.pos(cl.Pos()))
+					g := false
+					for _, f := range guardsOf(cl) {
+						cnd, p := unwrapNot(f.Cond, f.Pol)
+						if p && isCommaOk(cnd) && sliceReaches(cnd, filt) {
+							g = true
+						}
+					}
+					if !g {
+						all = false
+					}
+				}
+				okReg = all && n > 0
+				if okReg {
+					// the nil bypass must be gone: no caller passes a nil filter
+					for _, cl := range w.callersOf(nameIs("(*core/arbitrators.PackagesFacade).loadAndCacheExpressions")) {
+						if k, ok := cl.Common().Args[len(cl.Common().Args)-1].(*ssa.Const); ok && k.IsNil() {
+							okReg = false
+							sites = append(sites, w.pos(cl.Pos()))
+						}
+					}
+				}
+			}
+		}
+		if !okWalk && !okReg && viol == "" {
+			viol = "files outside controllerGlobs can become sources: registerParsedFile is reached without a membership test when the filter is nil (GetPackages -> loadAndCacheExpressions(.., nil), e.g. for a dot-imported package), and GetAllSourceFiles does not restrict itself to the glob-matched set; on the next analysis of the session such files are walked and their controllers contribute"
+		}
+		o := r.add(clause, "guardedby", "packages-facade:only-glob-matched-files-are-sources", "GetAllSourceFiles yields only files matched by the configured globs (filter at the walk, or at every registration)", []string{gasf, iwg}, sites, viol)
+		o.NonTrivial = true
+	}
 }
